@@ -17,12 +17,10 @@ _STRATA = {}
 
 
 def gen_run(prop, master, tier, index, V, bias=None):
-    from . import gen_c10, gen_c08
+    from . import gen_c09, gen_c10, gen_c08
     seed = E.run_seed(master, prop, tier, index)
     if prop == "C09":
-        if "C09" not in _STRATA:
-            _STRATA["C09"] = E.c09_strata(V)
-        return E.gen_c09(seed, V, tier, index, _STRATA["C09"], bias=bias)
+        return gen_c09.gen(seed, V, tier, index, bias=bias)
     if prop == "C10":
         return gen_c10.gen(seed, V, tier, index, bias=bias)
     if prop == "C08":
@@ -30,13 +28,13 @@ def gen_run(prop, master, tier, index, V, bias=None):
     raise ValueError(prop)
 
 
-def _init(repo):
+def _init(repo, mode="fork"):
     global _W, _V
     import faulthandler
     import signal
     faulthandler.enable()
     faulthandler.register(signal.SIGUSR1, all_threads=True)
-    _W = runner.Worker(repo)
+    _W = runner.Worker(repo, mode)
     _V = E.Vocab(_W.replica.call("vocab"))
 
 
@@ -84,7 +82,7 @@ def run_chunk(args):
     """Execute runs [lo, hi) of a batch; returns aggregated statistics and failures."""
     prop, master, tier, lo, hi, bias, check_replica = args
     W, V = _W, _V
-    res = {"n": 0, "steps": 0, "fired": {}, "states": set(), "trans": set(), "seqs": {},
+    res = {"n": 0, "steps": 0, "fired": {}, "states": set(), "trans": set(), "seqs": {}, "pairs": set(),
            "fail": [], "hashes": {}, "samples": [], "last_new": None, "notes": {}}
     import signal
 
@@ -106,6 +104,7 @@ def run_chunk(args):
             for k, v in f.items():
                 res["fired"][k] = res["fired"].get(k, 0) + v
             prev = {nid: runner.abstract_key(ab) for nid, ab in trace.get("init_abstract", {}).items()}
+            prevab = dict(trace.get("init_abstract", {}))
             for (nid, ev), ab in zip(run["events"], trace["abstract"]):
                 if ab is None:
                     continue
@@ -113,7 +112,26 @@ def run_chunk(args):
                 res["states"].add(k)
                 if nid in prev:
                     res["trans"].add((prev[nid], runner.event_group(ev)))
+                if nid in prevab:
+                    res["pairs"].add(",".join(sorted(runner.pending_groups(prevab[nid]))) + "|" + runner.event_group(ev))
                 prev[nid] = k
+                prevab[nid] = ab
+            if prop in ("C09", "C10"):
+                # reference model of the loader vs the node's real abstract state (coverage note only)
+                from . import model as M
+                pred = M.Predict()
+                for (nid, ev), ab in zip(run["events"], trace["abstract"]):
+                    if nid != 0 or ab is None:
+                        continue
+                    pred.feed(ev)
+                    real = runner.pending_groups(ab)
+                    if real != pred.pub_pending:
+                        for g in sorted(real ^ pred.pub_pending):
+                            key = "model_mismatch:%s:%s" % (g, runner.event_group(ev).split(":")[0])
+                            res["notes"][key] = res["notes"].get(key, 0) + 1
+                        pred.pub_pending = set(real)
+                    else:
+                        res["notes"]["model_agrees"] = res["notes"].get("model_agrees", 0) + 1
             nontrivial = bool(f)
             ks = hashlib.blake2b(kind_sequence(run).encode(), digest_size=8).hexdigest()
             res["seqs"][ks] = res["seqs"].get(ks, False) or nontrivial
@@ -135,6 +153,6 @@ def run_chunk(args):
     return res
 
 
-def make_pool(workers, repo):
+def make_pool(workers, repo, mode="fork"):
     ctx = mp.get_context("fork")
-    return cf.ProcessPoolExecutor(max_workers=workers, mp_context=ctx, initializer=_init, initargs=(repo,))
+    return cf.ProcessPoolExecutor(max_workers=workers, mp_context=ctx, initializer=_init, initargs=(repo, mode))
